@@ -444,6 +444,20 @@ Fixpoint find_out_edge (k : nat) (d : dcel) (cur final : nat) (p : nat -> bool) 
 Definition clear_flag (d : dcel) (e : nat) : dcel :=
   mkdcel (d_verts d) (d_hedges d) (d_faces d) (set_nth (as_undirected e) false (d_flags d)).
 
+(* ConstrainedDelaunayTriangulation::remove_constraint_edge(edge: FixedUndirectedEdgeHandle) -> bool (src/cdt.rs):
+     if self.is_constraint_edge(edge) { unmake_constraint_edge(); num_constraints -= 1; legalize_edge(edge.as_directed(), true); true }
+     else { false }
+   `u` is the undirected index; as_directed() is the normalized half-edge 2u.  The bool is the returned value and says whether
+   num_constraints was decremented.  `release_constraints` below runs exactly this body for the edge it has found (which is flagged). *)
+Definition remove_constraint_edge (d : dcel) (u : nat) : option (dcel * bool) :=
+  if is_flagged d (normalized u) then
+    let d := clear_flag d (normalized u) in
+    match legalize_edge pts fuel d (normalized u) true with
+    | None => None
+    | Some (d, _) => Some (d, true)
+    end
+  else Some (d, false).
+
 (* the `while let Some(edge) = ... { self.remove_constraint_edge(edge); }` loop *)
 Fixpoint release_constraints (k : nat) (d : dcel) (v : nat) : option dcel :=
   match k with
@@ -473,6 +487,11 @@ Definition cdt_remove_vertex (d : dcel) (v : nat) : option (dcel * vrec) :=
   | Some d => remove_vertex_full d v
   end.
 End R.
+
+(* ------------------------------------------------------------------ Dcel::clear (src/delaunay_core/dcel.rs) *)
+(* vertices.clear(); edges.clear(); faces.truncate(1); faces[0].adjacent_edge = None *)
+Definition dcel_clear (d : dcel) : dcel :=
+  set_adjacent_edge (mkdcel [] [] (firstn 1 (d_faces d)) []) 0 None.
 
 (* the deliverable's signature *)
 Definition remove_vertex (pts : list pnt) (fuel : nat) (d : dcel) (v : nat) : option dcel :=
